@@ -88,6 +88,12 @@ class _PathSet:
     def __len__(self):
         raise sym.Unsupported("len() of a path set outside the runtime")
 
+    def __symtruth__(self):
+        return B(self.__symlen__() > 0)
+
+    def __bool__(self):
+        return cur().fork(self.__symtruth__())
+
 
 class _Results:
     """dict[tuple[str, ...], set[Path]] as two arrays."""
